@@ -138,5 +138,5 @@ Theorem C05_example :
       map (map pid) ctor = [[1]; []; [4]]%Z /\ map (map pid) meth = [[1]; [4]]%Z /\ counts = [1; 0; 1]%Z
   | _, _ => False
   end.
-Proof. exact (conj eq_refl (conj eq_refl eq_refl)). Qed.
+Proof. exact example_ctor_vs_methods. Qed.
 Print Assumptions C05_example.
